@@ -13,6 +13,7 @@ Record rs := mk_rs {
   rs_alloc : N;           (** local numbers handed out by the model so far (model number = base + 500000 + k) *)
   rs_map : list N;        (** model numbers in order of first appearance on the transport *)
   rs_nreq : N;            (** request ids handed out *)
+  rs_preqs : list N;      (** the request ids made by sending ports over a port *)
   rs_emitted : nat        (** messages already reported *)
 }.
 
@@ -93,14 +94,16 @@ Definition status (e : ep) : N :=
   | None, None => if goodbye_sent (mx e) && goodbye_received (mx e) then 1 else 0
   end.
 
-Definition enc_resp (r : cstate) : list N :=
+(** [via_port]: the response task of [Sender::connect] reports a lost response as [ChMux] whatever is
+    known about the remote listener; that of [Client::connect] reports [Rejected] when it is gone *)
+Definition enc_resp (via_port : bool) (r : cstate) : list N :=
   match r with
   | CWaiting => [0]
   | CResolved (RAccepted _ _) => [1]
   | CResolved (RRejected false) => [2]
   | CResolved (RRejected true) => [3]
   | CResolved RChMux => [4]
-  | CResolved RListenerGone => [2]
+  | CResolved RListenerGone => if via_port then [4] else [2]
   end.
 
 (** the [k]-th key of an association list in insertion order is not kept by [insert]; handles are
@@ -129,6 +132,22 @@ Definition big (r : rs) (code : N) (args : list N) : rs * list N :=
     | 11, [k] => step e (UDropRx (local k))
     | 12, [k] => step e (UDropTx (local k))
     | 13, [] => step e UTerminate
+    | 14, [k; n; wait] =>
+        (* [Sender::connect] on the [k]-th appeared local port with [n] fresh ports *)
+        let ps := (fix mk (i : nat) (j : N) : list (N * N * N) :=
+                     match i with
+                     | O => []
+                     | S i' => (fresh_num + j, fresh_num + j, rs_nreq r + j) :: mk i' (j + 1)
+                     end) (N.to_nat n) 0 in
+        (* [credits.request] fails once the pool is closed (as for [USendData]) *)
+        match lookup (local k) (ports (mx e)) with
+        | Some (Connected c) =>
+            match pool_closed c with
+            | None => step e (USendPorts (local k) true true (negb (wait =? 0)) ps)
+            | Some _ => e
+            end
+        | _ => e
+        end
     | 20, paylen :: nums =>
         match nums_to_msg nums with
         | Some m => step e (Recv (rename_in mp m) paylen)
@@ -144,13 +163,27 @@ Definition big (r : rs) (code : N) (args : list N) : rs * list N :=
                       (filter (fun x => match fst x with PortCredits _ _ | Ping => false | _ => true end) new_msgs) ++
     [202; status e2] ++
     match code with
-    | 1 => match lookup (rs_nreq r) (connects e2) with Some c => enc_resp c | None => [9] end
+    | 1 => match lookup (rs_nreq r) (connects e2) with Some c => enc_resp false c | None => [9] end
     | _ => []
     end in
   ({| rs_ep := e2;
-      rs_alloc := match code with 1 | 5 => if mem fresh_num (alloc e1) || mem fresh_num (alloc e) then rs_alloc r + 1 else rs_alloc r | _ => rs_alloc r end;
+      rs_alloc := match code, args with
+                  | 1, _ | 5, _ => if mem fresh_num (alloc e1) || mem fresh_num (alloc e) then rs_alloc r + 1 else rs_alloc r
+                  | 14, [_; n; _] => if mem fresh_num (alloc e1) then rs_alloc r + n else rs_alloc r
+                  | _, _ => rs_alloc r
+                  end;
       rs_map := mp';
-      rs_nreq := match code, lookup (rs_nreq r) (connects e2) with 1, Some _ => rs_nreq r + 1 | _, _ => rs_nreq r end;
+      rs_nreq := match code, args, lookup (rs_nreq r) (connects e2) with
+                 | 1, _, Some _ => rs_nreq r + 1
+                 | 14, [_; n; _], Some _ => rs_nreq r + n
+                 | _, _, _ => rs_nreq r
+                 end;
+      rs_preqs := match code, args, lookup (rs_nreq r) (connects e2) with
+                  | 14, [_; n; _], Some _ =>
+                      (fix iota (i : nat) (from : N) : list N := match i with O => [] | S i' => from :: iota i' (from + 1) end)
+                        (N.to_nat n) (rs_nreq r) ++ rs_preqs r
+                  | _, _, _ => rs_preqs r
+                  end;
       rs_emitted := length (sent e2) |}, out).
 
 Fixpoint run_ops (fuel : nat) (r : rs) (l : list N) : list N :=
@@ -165,7 +198,7 @@ Fixpoint run_ops (fuel : nat) (r : rs) (l : list N) : list N :=
           o ++ run_ops fuel' r' rest'
       | _ =>
           (* final report: pending connect requests' outcomes *)
-          [203] ++ flat_map (fun k => match lookup k (connects (rs_ep r)) with Some c => enc_resp c | None => [9] end)
+          [203] ++ flat_map (fun k => match lookup k (connects (rs_ep r)) with Some c => enc_resp (mem k (rs_preqs r)) c | None => [9] end)
                             ((fix iota (n : nat) (from : N) : list N := match n with O => [] | S n' => from :: iota n' (from + 1) end)
                                (N.to_nat (rs_nreq r)) 0)
       end
@@ -176,6 +209,6 @@ Definition run_endpoint (inp : list N) : list N :=
   match inp with
   | ck :: bu :: cq :: rb :: ver :: maxp :: ops =>
       run_ops (S (length ops))
-              {| rs_ep := ep_init (mux_init ck bu cq rb ver) maxp; rs_alloc := 0; rs_map := []; rs_nreq := 0; rs_emitted := 0 |} ops
+              {| rs_ep := ep_init (mux_init ck bu cq rb ver) maxp; rs_alloc := 0; rs_map := []; rs_nreq := 0; rs_preqs := []; rs_emitted := 0 |} ops
   | _ => [98]
   end.
